@@ -172,6 +172,13 @@ class Program:
         self.impl_info = {}       # def name -> (self_type_lastseg, trait_str or None)
         self.enum_variants = {}   # enum last-seg -> [variant names] (from source)
         self._parse_promoted(mir_text)
+        self.external = {"std", "core", "alloc"}
+        try:
+            for m in re.finditer(r'^name = "([^"]+)"', open(os.path.join(src_root, "Cargo.lock")).read(), re.M):
+                self.external.add(m.group(1).replace("-", "_"))
+            self.external.discard("cardano_serialization_lib")
+        except Exception:
+            pass
         for name, fn in self.fns.items():
             m = re.search(r"\{closure#\d+\}$", name)
             if m and fn.params:
@@ -283,6 +290,8 @@ class Program:
             if a < 0:
                 return None
             selfty, trait = inner[:a].strip(), inner[a + 4:].strip()
+            if self.is_external(selfty):
+                return None
             cands = []
             for d in self.by_method.get(meth, []):
                 st, tr = self.impl_of(d)
@@ -292,7 +301,11 @@ class Program:
                     # prefer exact generic-arg match of the trait, and & vs non-& self
                     score = 0
                     if norm_ty(tr) == norm_ty(trait):
-                        score += 2
+                        score += 4
+                    elif re.match(r"^\w+<[A-Z]\w?>$", norm_ty(tr)):
+                        score += 2      # blanket impl over a type parameter
+                    elif "<" in tr and "<" in trait:
+                        continue        # a different concrete instantiation
                     hdr = self._impl_cache.get(self._impl_key(d), "")
                     is_ref_impl = bool(re.search(r"\bfor\s+&", hdr))
                     if is_ref_impl == selfty.startswith("&"):
@@ -306,6 +319,8 @@ class Program:
             return None
         # Type::method or free function path
         c2 = re.sub(r"::<[^>]*>$", "", c)     # trailing turbofish on the method
+        if self.is_external(c2):
+            return None
         parts = split_path(c2)
         meth = parts[-1]
         cands = self.by_method.get(meth, [])
@@ -324,6 +339,10 @@ class Program:
         if len(free) == 1:
             return free[0]
         return None
+
+    def is_external(self, path):
+        p = re.sub(r"^&(mut )?", "", path.strip())
+        return p.split("::")[0].split("<")[0] in self.external
 
     def _impl_key(self, defname):
         m = re.search(r"<impl at ([^:>]+):(\d+):", defname)
@@ -897,8 +916,18 @@ class Engine:
                 if (ety in ENUM_STD and var in ENUM_STD[ety]) or (ety in self.P.enum_variants and var in self.P.enum_variants[ety]):
                     return VEnum(ety, var, vals)
             sn = last_seg(name)
-            if sn == "BigInt" and len(vals) == 1 and isinstance(vals[0], VBig) and False:
-                return vals[0]
+            if len(parts) == 1:
+                # bare (trimmed) variant name: the enum is the destination's declared type, else a unique owner
+                ety = None
+                if dest is not None and dest[0] == "local":
+                    ety = last_seg(fr.fn.locals.get(dest[1], ""))
+                    if ety == "Option" or ety == "Result":
+                        pass
+                owners = [e for e, vs in list(ENUM_STD.items()) + list(self.P.enum_variants.items()) if sn in vs]
+                if ety in owners:
+                    return VEnum(ety, sn, vals)
+                if ety not in ENUM_STD and ety not in self.P.enum_variants and len(set(owners)) == 1:
+                    return VEnum(owners[0], sn, vals)
             return VStruct(sn, vals)
         if k == "len":
             v = self.read_place(fr, rv[1])
